@@ -27,7 +27,7 @@ NSHARDS = 16
 
 
 def plan(tier, seed):
-    n = 20000 if tier == "quick" else 1000000
+    n = 64000 if tier == "quick" else 5000000
     return [{"kind": "random", "start": p * (n // NSHARDS), "count": n // NSHARDS} for p in range(NSHARDS)]
 
 
